@@ -159,6 +159,20 @@ theorem C01_roundtrip_strict (codec : Option Codec) (rows cols : Nat) (t : SegTy
   have := all_cells_stored codec rows cols t segs mfv order m hcover hin o hb sg hsg p (hreq p hp)
   exact List.mem_map.mpr ⟨(sg, p), this, rfl⟩
 
+/-- (5a) **"Rounded to the stored quantisation."**  What a FRACTIONAL segmentation delivers after rescaling,
+`quantise mfv x / mfv`, differs from the fraction `x` that was passed in by at most half a quantisation step
+`1 / (2 * mfv)` -- for every admissible `max_fractional_value`. -/
+theorem quantisation_error (mfv : Nat) (hm : 1 ≤ mfv) (x : Rat) (h0 : 0 ≤ x) :
+    |((quantise mfv x : Nat) : Rat) / (mfv : Rat) - x| ≤ 1 / (2 * (mfv : Rat)) :=
+  quantise_error_bound mfv hm x h0
+
+/-- (6-refusal) The read without `assert_missing_frames_are_empty` refuses (KeyError) a request that names a source
+plane no frame references -- it never silently invents an empty plane there. -/
+theorem strict_read_refuses_missing (codec : Option Codec) (o : SegObj) (request : List Nat) (hnd : o.keys.Nodup)
+    (p : Nat) (hp : p ∈ request) (hmiss : p ∉ o.keys.map (·.2)) :
+    readBySource codec o request false = .error .key :=
+  strict_refuses codec o request hnd p hp hmiss
+
 /-- (4a) **Every non-empty (segment, plane) pair is stored, and stored once**: a cell of the loop whose pixels
 are not all zero has its (segment, source plane) key among the frames of the object, and no key occurs twice --
 whatever the empty-frame policy.  (That a pair *without* a frame is all zero is part of (6): it reads back as
